@@ -398,6 +398,42 @@ func runC10(c *eng.Ctx) {
 				c.R.Sample(sampleOf(fr, map[string]any{"kind": "fault", "failing_invocation": fmt.Sprintf("%s #%d (%s)", meta.Name, run.Nth, note[1:])}))
 			}
 		}
+		// Close methods that fail: whatever a Close returns, every other instance - of the same
+		// scope, of the scopes closed after it, and every singleton - is still closed exactly once
+		// (one failing instance per execution: the first, a middle and the last created disposable
+		// that is not a singleton, and one singleton)
+		if base.Built {
+			own := ownedDisposables(base, o)
+			var scoped, single []owned
+			for _, x := range own {
+				if x.owner == -1 {
+					single = append(single, x)
+				} else {
+					scoped = append(scoped, x)
+				}
+			}
+			var picks []owned
+			if n := len(scoped); n > 0 {
+				for _, i := range dedupInts([]int{1, (n + 1) / 2, n}) {
+					picks = append(picks, scoped[i-1])
+				}
+			}
+			if n := len(single); n > 0 {
+				picks = append(picks, single[(k+n-1)%n])
+			}
+			for _, x := range picks {
+				cf := rt.CloseFault{Ctor: x.run.Ctor, Nth: x.run.Nth, Out: x.out}
+				fr := replayOps(s, m, ops, nil, []rt.CloseFault{cf})
+				if fr.Built && !fr.Scopes[0].Closed {
+					fr.Finish()
+				}
+				fo := Digest(fr)
+				report(c, "C10", idx, fr, MonC10(fr, fo, ":a-close-method-fails"))
+				positions++
+				c.R.Count("failing_close_positions", 1)
+				c.R.Count("close_events", int64(len(fo.CloseOrder)))
+			}
+		}
 		// Build cancelled (BuildWithContext) from inside each constructor invocation of the Build
 		for ri, run := range o.Runs {
 			if run.Op != 0 {
